@@ -238,3 +238,17 @@ prop("C05",
      level_note="Trusted: Lean kernel; kernel mount semantics are modelled (assumed) and sampled on the real kernel by the differential; skeleton tied to regenerated code by kernel evaluation on a finite set of tables plus the per-run driver comparison. Two open known findings",
      technique="Lean 4 proof by induction over the mount table + decide +kernel on regenerated Go-lite code + differential on real mount namespaces",
      timeout={"quick": 900, "thorough": 3600})
+
+prop("C17",
+     race=True,
+     trusted_base=["Model/Concurrent.lean: three abstract machines over arbitrary schedules — (A) descriptor table of the host process vs forks of other runs (fork copies the table, exec closes close-on-exec descriptors), (B) which wait4 selector can return which process (any thread of the host process may collect a child or tracee it selects), (C) request/reply on one control socket with and without the mutex",
+                   "structural facts about the regenerated source (Gen.C17, go/ast): every host-side wait4 selector is the run's own pid/-pgid; Trace starts with runtime.LockOSThread and defers the unlock; ForkLock.Lock precedes the clone and Unlock follows forkAndExecInChild; every raw descriptor-creating call carries a CLOEXEC flag; every *container method that talks on the socket starts with c.mu.Lock/defer Unlock or is only called from such methods",
+                   "tie: 16-way concurrent rounds mixing ptrace runs, namespace runs, container environments and several callers on one shared environment, each result compared with the same run alone; Go race detector in the thorough tier"],
+     assumptions=["kernel: fork copies the descriptor table, exec closes FD_CLOEXEC descriptors, wait4(pid)/wait4(-pgid) only return matching children, ptrace requests are valid only from the tracer thread (hence the thread pinning)",
+                  "Go runtime: os.Pipe/os.Open/net create descriptors close-on-exec under ForkLock (the library's own raw creations are checked, the runtime's are trusted)",
+                  "programs do not leave their process group (C12's precondition) — a program that does can be collected by nobody"],
+     not_covered="the Go scheduler and the kernel are not modelled: an interleaving-dependent defect outside the three mechanisms (a shared package-level variable, a goroutine leak) is visible only to the concurrent differential and the race detector, which sample schedules",
+     level_text="Theorems over ALL schedules and any number of runs: with atomically close-on-exec creations no forked program inherits another run's descriptor (witness for the non-atomic case); with the selectors the code uses a wait of one run can only return that run's processes (witness for wait4(-1)); with the mutex around every request/reply pair every caller receives the reply to its own request (witness without the mutex); kernel-evaluated facts that the regenerated source satisfies those hypotheses. The remaining, scheduler-dependent part is sampled: 16-way concurrent differential against solo runs, race detector",
+     level_note="PARTIAL: the theorems cover the protocol-level mechanisms under stated kernel/runtime assumptions; thread interleavings of the real runtime are sampled, not proved. Structural facts are syntactic (go/ast), tied to the source on every run",
+     technique="Lean 4 proofs by induction over schedules (invariants) + decide +kernel on regenerated source facts + concurrent differential and Go race detector",
+     timeout={"quick": 900, "thorough": 5400})
